@@ -175,6 +175,20 @@ extern "C" void h_mkOr3()  { run_andor<3, 3>(C_OR); }
 extern "C" void h_mkXor()  { build_universe(); PTRef a[4]; pick_args(a); bool e = V(a[0]) != V(a[1]); PTRef r = call<2>(C_XOR, a); check(r, e); arg_witness2(a); if (created >= 2) { VWITNESS("auxiliary-negation-created"); } }
 extern "C" void h_mkImpl() { build_universe(); PTRef a[4]; pick_args(a); bool e = !V(a[0]) || V(a[1]); PTRef r = call<2>(C_IMPL, a); check(r, e); arg_witness2(a); if (created >= 2) { VWITNESS("auxiliary-negation-created"); } }
 extern "C" void h_mkIte()  { build_universe(); PTRef a[4]; pick_args(a); bool e = V(a[0]) ? V(a[1]) : V(a[2]); PTRef r = call<3>(C_ITE, a); check(r, e); arg_witness2(a); if (a[1] == a[2]) { VWITNESS("equal-branches"); } }
+
+// C28: commutative constructors are insensitive to the order of their arguments - the two calls return the SAME term identity
+// (the constructor sorts its arguments before the hash-consing lookup)
+static void run_commut(Ctor c) {
+    build_universe(); PTRef a[4]; pick_args(a);
+    PTRef ab[2] = {a[0], a[1]}, ba[2] = {a[1], a[0]};
+    PTRef r1 = call<2>(c, ab); PTRef r2 = call<2>(c, ba);
+    VASSERT(!bad_ref && !overflow && !bad_sym, "constructor only touches nodes of the universe and builds well-formed nodes");
+    VASSERT(r1 == r2, "swapping the two arguments of a commutative constructor gives the same term identity");
+    VWITNESS("returned"); if (r1.x >= UK) { VWITNESS("new-term-created"); } if (a[0].x > a[1].x) { VWITNESS("arguments-given-in-descending-order"); }
+}
+extern "C" void h_commut_and() { run_commut(C_AND); }
+extern "C" void h_commut_or()  { run_commut(C_OR); }
+extern "C" void h_commut_xor() { run_commut(C_XOR); }
 extern "C" void h_mkNot()  {
     build_universe(); PTRef a[4]; pick_args(a); bool e = !V(a[0]); PTRef r = L->mkNot(a[0]); check(r, e);
     if (nsym(a[0].x) == S_NOT) { VWITNESS("double-negation"); }
